@@ -2157,8 +2157,10 @@ package decimal128
 //@ ensures !OZero && !(DOne && (!sign(d) || isinf(o))) && OOne && sign(o) && !special(d) && coef(d) != 0 ==> sign(r) == sign(d) && !isnan(r)
 //@    && (isinf(r) ==> Ovf(mode, sign(r), rs(V, 12287)))
 //@    && (!special(r) ==> (rs(V, 0) < 0.1 && coef(r) == 0) || (rs(V, 0) >= 0.1 && RndOK(mode, sign(r), rs(V, bexp(r)), coef(r), bexp(r))))
-//@ ensures !OZero && !DOne && !OOne && isnan(d) ==> r == d
-//@ ensures !OZero && !DOne && !OOne && !isnan(d) && isnan(o) ==> r == o
+//@ ensures !OZero && !(DOne && !sign(d)) && !OOne && isnan(d) ==> r == d
+//@ ensures !OZero && !(DOne && !sign(d)) && !OOne && !isnan(d) && isnan(o) ==> r == o
+//@ ensures !OZero && OOne && sign(o) && !special(d) && coef(d) == 0 ==> isinf(r) && sign(r) == sign(d) && lo(r) == 0
+//@ ensures !OZero && OOne && sign(o) && isinf(d) ==> !special(r) && coef(r) == 0 && bexp(r) == 0 && sign(r) == sign(d)
 //@ ensures isinf(o) && !special(d) && coef(d) == 0 ==> ite(sign(o), RisInf, RisZero)
 //@ ensures isinf(o) && isinf(d) ==> ite(sign(o), RisZero, RisInf)
 //@ ensures isinf(o) && !special(d) && coef(d) != 0 && cmpmag(coef(d), bexp(d), 1, 6176) == 1 ==> ite(sign(o), RisZero, RisInf)
@@ -2228,8 +2230,10 @@ package decimal128
 //@ ensures !OZero && !(DOne && (!sign(d) || isinf(o))) && OOne && sign(o) && !special(d) && coef(d) != 0 ==> sign(r) == sign(d) && !isnan(r)
 //@    && (isinf(r) ==> Ovf(DefaultRoundingMode, sign(r), rs(V, 12287)))
 //@    && (!special(r) ==> (rs(V, 0) < 0.1 && coef(r) == 0) || (rs(V, 0) >= 0.1 && RndOK(DefaultRoundingMode, sign(r), rs(V, bexp(r)), coef(r), bexp(r))))
-//@ ensures !OZero && !DOne && !OOne && isnan(d) ==> r == d
-//@ ensures !OZero && !DOne && !OOne && !isnan(d) && isnan(o) ==> r == o
+//@ ensures !OZero && !(DOne && !sign(d)) && !OOne && isnan(d) ==> r == d
+//@ ensures !OZero && !(DOne && !sign(d)) && !OOne && !isnan(d) && isnan(o) ==> r == o
+//@ ensures !OZero && OOne && sign(o) && !special(d) && coef(d) == 0 ==> isinf(r) && sign(r) == sign(d) && lo(r) == 0
+//@ ensures !OZero && OOne && sign(o) && isinf(d) ==> !special(r) && coef(r) == 0 && bexp(r) == 0 && sign(r) == sign(d)
 //@ ensures isinf(o) && !special(d) && coef(d) == 0 ==> ite(sign(o), RisInf, RisZero)
 //@ ensures isinf(o) && isinf(d) ==> ite(sign(o), RisZero, RisInf)
 //@ ensures isinf(o) && !special(d) && coef(d) != 0 && cmpmag(coef(d), bexp(d), 1, 6176) == 1 ==> ite(sign(o), RisZero, RisInf)
